@@ -37,7 +37,8 @@ LEVEL_TEXT = ('For each space and each representation the per-object encoding is
               'cell changes; the agent marker must be exactly one 1 at the agent\'s cell; single perturbations of a member (one '
               'cell, agent cell, heading, held item) must change the representation, equal members must have equal '
               'representations and hashes; default = (registry index, status index, colour value) by the harness\' own tables; '
-              'no-overlap channel images pairwise disjoint; compact images disjoint with union {0..N-1}.')
+              'no-overlap channel images pairwise disjoint; compact images disjoint with union {0..N-1}.'
+              ' Also: members differing only in box contents (== by the library: equal hashes and representations, and conversely), element-wise equality of representations, single-row / single-column worlds, declared lists with repeats / implicit types.')
 LEVEL_NOTE = 'Trusted: enc.eo as identity of objects; own tables for status/colour values. Spaces sampled in quick, all type subsets in thorough.'
 SHARDS = {'quick': 4, 'thorough': 16}
 BUDGET_S = {'quick': 300, 'thorough': 2400}
